@@ -238,11 +238,99 @@ theorem shuffle_is_perm {α : Type} [DecidableEq α] (xs out : List α) (s r : S
       simp only [hj] at h
       exact (ih _ _ h).trans (swap_perm xs (i + 1) j)
 
+/-! ## Concurrent use -/
+
+/-- **Safe for concurrent use, given atomic calls**: for every lock order the words handed out are,
+in that order, exactly the next words of the stream — no word is handed out twice, none is skipped,
+none is invented. (The `prng_conc` monitor checks the consequence on real goroutines: the draws of
+all goroutines together are a partition of the stream prefix. A `Uint64` that decodes from memory
+shared between calls is not of the atomic shape this statement assumes, and the monitor sees
+duplicated and lost words.) -/
+theorem conc_draws_are_the_stream_prefix (sched : List Nat) (s : Stream) (h : sched.length ≤ s.length) :
+    (runSched sched s).map (·.2) = (s.take sched.length).map (· % 18446744073709551616) := by
+  induction sched generalizing s with
+  | nil => simp [runSched]
+  | cons t ts ih =>
+    cases s with
+    | nil => simp at h
+    | cons u r =>
+      simp only [runSched, List.map_cons, List.length_cons, List.take_succ_cons]
+      rw [ih r (by simpa using h)]
+
+/-- each goroutine receives a subsequence of that prefix, and the sizes add up: together with the
+statement above, the per-goroutine draws partition the prefix. -/
+theorem conc_draws_count (sched : List Nat) (s : Stream) (h : sched.length ≤ s.length) :
+    (runSched sched s).length = sched.length ∧
+    ∀ t, (drawsOf t (runSched sched s)).length = sched.count t := by
+  induction sched generalizing s with
+  | nil => simp [runSched, drawsOf]
+  | cons t' ts ih =>
+    cases s with
+    | nil => simp at h
+    | cons u r =>
+      obtain ⟨h1, h2⟩ := ih r (by simpa using h)
+      refine ⟨by simp [runSched, h1], fun t => ?_⟩
+      have := h2 t
+      simp only [drawsOf, List.length_map] at this ⊢
+      by_cases e : t' = t
+      · subst e; simp [runSched, this]
+      · have e' : (t' == t) = false := by simpa using e
+        simp [runSched, this, e', List.count_cons]
+
+/-! ## Salted seeds
+
+Full statement of the property: *different salts give different seeds*. It is cryptographic (it
+rests on HMAC/HKDF behaving like a random function of the key block, hypothesis `hF`) **and it is
+false as stated** for the code as it is: HMAC pads its key with zero bytes, so salts that differ
+only by trailing NUL bytes are the same key block (`salted_differs_fails`; replayed on the real code
+by `corpus/C30/salt-trailing-nul.case`, known finding `salt-trailing-nul`). What holds is
+`salted_differs_partial`. -/
+
+private theorem dropWhile_replicate_zero (n : Nat) (t : List UInt8) :
+    (List.replicate n (0 : UInt8) ++ t).dropWhile (· == 0) = t.dropWhile (· == 0) := by
+  induction n with
+  | zero => rfl
+  | succ n ih => simp [List.replicate_succ, ih]
+
+private theorem stripZ_pad (s : List UInt8) (n : Nat) : stripZ (s ++ List.replicate n 0) = stripZ s := by
+  unfold stripZ
+  rw [List.reverse_append, List.reverse_replicate, dropWhile_replicate_zero]
+
+/-- salted seeds are a function of (seed, salt) — and of the **whole** salt up to trailing NULs:
+two salts of at most one HMAC block that differ anywhere else give different key blocks, hence
+(`hF`: the rest of HKDF is injective in the key block, the cryptographic idealisation) different seeds. -/
+theorem salted_differs_partial (H : List UInt8 → List UInt8) (F : List UInt8 → List UInt8 → List UInt8)
+    (hF : ∀ seed k k', F seed k = F seed k' → k = k')
+    (seed a b : List UInt8) (ha : a.length ≤ hmacBlock) (hb : b.length ≤ hmacBlock)
+    (h : stripZ a ≠ stripZ b) : saltedSeed H F seed a ≠ saltedSeed H F seed b := by
+  intro he
+  have hk := hF _ _ _ he
+  unfold saltKey at hk
+  simp only [ha, hb, if_true] at hk
+  apply h
+  have := congrArg stripZ hk
+  rwa [stripZ_pad, stripZ_pad] at this
+
+/-- the negation of the unguarded statement, with a concrete witness: `"ALPS"` and `"ALPS\x00"`
+derive the same seed whatever the hash and the rest of HKDF are. -/
+theorem salted_differs_fails :
+    ∃ a b : List UInt8, a ≠ b ∧ ∀ H F seed, saltedSeed H F seed a = saltedSeed H F seed b := by
+  refine ⟨[0x41, 0x4c, 0x50, 0x53], [0x41, 0x4c, 0x50, 0x53, 0], by decide, ?_⟩
+  intro H F seed
+  have : saltKey H [0x41, 0x4c, 0x50, 0x53] = saltKey H [0x41, 0x4c, 0x50, 0x53, 0] := by
+    simp [saltKey, hmacBlock, List.replicate_succ]
+  simp [saltedSeed, this]
+
 /-! Non-vacuity: concrete draws. -/
 example : intn 10 [0x1234567800000000] = some (6, []) := by decide
 example : intn 10 [0x7fffffff00000000, 0x1234567800000000] = some (6, []) := by decide  -- first draw rejected
 example : intn (-4) [5] = some (0, [5]) := by decide
 example : range (-3) 5 [0x1234567900000000] = some (1, []) := by decide
 example : perm 3 [0, 0x4000000000000000, 0x6000000000000000] = some ([2, 0, 1], []) := by decide
+-- two goroutines, lock order 0,1,1,0: the draws are the stream prefix, split 2/2
+example : runSched [0, 1, 1, 0] [10, 11, 12, 13, 14] = [(0, 10), (1, 11), (1, 12), (0, 13)] := by decide
+example : drawsOf 1 (runSched [0, 1, 1, 0] [10, 11, 12, 13, 14]) = [11, 12] := by decide
+-- salts sharing their first 32 bytes are different key blocks (nothing is cut at 32)
+example : stripZ (List.replicate 32 7 ++ [1]) ≠ stripZ (List.replicate 32 7 ++ [2]) := by decide
 
 end C30
